@@ -15,6 +15,7 @@ import TonVerif.Drv.Tlb
 import TonVerif.Drv.Sig
 import TonVerif.Drv.Heap
 import TonVerif.Drv.Address
+import TonVerif.Drv.VmStack
 
 open TonVerif TonVerif.Drv
 
@@ -30,6 +31,7 @@ def handlers : List (String → List String → Option String) := [
   Adnl.handle?,
   Heap.handle?,
   Address.handle?
+  VmStack.handle?
 ]
 
 def handle (op : String) (args : List String) : String :=
